@@ -261,7 +261,7 @@ fn run_case(line: &str, cap: &mut Capture, out: &mut Out, fresh: &[String]) {
                 }
             };
             match Parser::parse(tokens) {
-                Ok(stmts) => out.line(id, &format!("PARSE ok {}", stmts.iter().map(stmt).collect::<Vec<_>>().join("|"))),
+                Ok(stmts) => out.line(id, &format!("PARSE ok {}", stmts.iter().map(stmt).collect::<Vec<_>>().join("~"))),
                 Err(e) => out.line(id, &format!("PARSE err {}", parse_err(&e))),
             }
         }
